@@ -104,20 +104,22 @@ Definition duration_format (ms style largest smallest : N) : str :=
   if style =? S_COMPACT then colon_to_dot s else s.
 
 (* _auto_units(cell_value, number_format) -> (unit_smallest, unit_largest) *)
+(* the `if cell_value >= SECONDS_IN_WEEK ... elif ...` chain *)
+Definition auto_largest (ms : N) : N :=
+  if MS_WEEK <=? ms then U_WEEK else if MS_DAY <=? ms then U_DAY else if MS_HOUR <=? ms then U_HOUR
+  else if MS_MINUTE <=? ms then U_MINUTE else if MS_SECOND <=? ms then U_SECOND else U_MS.
+(* the `if math.floor(cell_value) != cell_value ... elif cell_value % 60 ...` chain; a whole number of weeks
+   keeps the stored smallest unit *)
+Definition auto_smallest (ms stored_smallest : N) : N :=
+  if negb (ms mod MS_SECOND =? 0) then U_MS
+  else if negb (ms mod MS_MINUTE =? 0) then U_SECOND
+  else if negb (ms mod MS_HOUR =? 0) then U_MINUTE
+  else if negb (ms mod MS_DAY =? 0) then U_HOUR
+  else if negb (ms mod MS_WEEK =? 0) then U_DAY
+  else stored_smallest.
 Definition auto_units (ms stored_largest stored_smallest : N) : N * N :=
   if ms =? 0 then (U_DAY, U_DAY)
-  else
-    let largest :=
-      if MS_WEEK <=? ms then U_WEEK else if MS_DAY <=? ms then U_DAY else if MS_HOUR <=? ms then U_HOUR
-      else if MS_MINUTE <=? ms then U_MINUTE else if MS_SECOND <=? ms then U_SECOND else U_MS in
-    let smallest :=
-      if negb (ms mod MS_SECOND =? 0) then U_MS
-      else if negb (ms mod MS_MINUTE =? 0) then U_SECOND
-      else if negb (ms mod MS_HOUR =? 0) then U_MINUTE
-      else if negb (ms mod MS_DAY =? 0) then U_HOUR
-      else if negb (ms mod MS_WEEK =? 0) then U_DAY
-      else stored_smallest in
-    (N.max smallest largest, largest).
+  else (N.max (auto_smallest ms stored_smallest) (auto_largest ms), auto_largest ms).
 
 (* Cell._duration_format with the format record's four fields *)
 Definition duration_display (ms style largest smallest : N) (auto : bool) : str :=
